@@ -1,4 +1,5 @@
 import NoteSeqVerif.Model.C10
+import NoteSeqVerif.Model.C10Heap
 /-! line-protocol driver for C10 (strings travel as `x` + hex of their UTF-8 bytes).
 
 `pc <step> <alter> <k>`
@@ -8,6 +9,8 @@ import NoteSeqVerif.Model.C10
 `mel <k> <min> <max> <n> e*`, `key <n> e*`, `squash <min> <max> <key|N> <n> e*`
 `cp <k> <table> <n> fig*`, `ls <k> <min> <max> <table> <n> e* <m> fig*`, `lsq <min> <max> <key> <table> <n> e* <m> fig*`
 `clamp <amount> <ns_min> <ns_max> <min> <max>`
+`hist <table> <nobj> (<n> e* <m> fig*)* <nops> (d <i> | t <i> <k> <min> <max> | s <i> <min> <max> <key>)*` — objects and a history
+of deepcopy / transpose / squash over them; answer: after every operation its result and every object
 `<sym>` = `<rootStep> <rootAlter> <kind> <mods> <n> (<type> <degree>)* <hasBass> <bassStep> <bassAlter>`
 `<table>` = `<n> (<text> (U | S <sym>))*` — what the real `_split_chord_symbol` said about each text. -/
 open NSV NSV.Wire NSV.C10
@@ -127,6 +130,23 @@ def pKey : P (Option Int) := do
 def pickOf (mode : Nat) (a b : Int) : Int :=
   if mode = 0 then a else if mode = 1 then b else Int.fdiv (a + b) 2
 
+def pObj : P Obj := do let es ← P.list P.int; let figs ← P.list pHex; pure { es, figs }
+
+def pHOp : P HOp := do
+  let t ← P.str
+  if t = "d" then do let i ← P.nat; pure (.deepcopy i)
+  else if t = "t" then do let i ← P.nat; let k ← P.int; let mn ← P.int; let mx ← P.int; pure (.transpose i k mn mx)
+  else if t = "s" then do let i ← P.nat; let mn ← P.int; let mx ← P.int; let key ← P.int; pure (.squash i mn mx key)
+  else failure
+
+def showHRes : HRes → String
+  | .ok => "ok"
+  | .amount a => s!"ok:{a}"
+  | .err e => "err:" ++ e.name
+  | .noObject => "no-object"
+
+def showObj (o : Obj) : String := s!"{showInts o.es} {showList hex o.figs}"
+
 def run (p : P String) (rest : List String) : String :=
   match (do let a ← p; P.eof; pure a : P String) rest with
   | some (a, _) => a
@@ -191,6 +211,10 @@ def step (line : String) : String :=
         | none => toString r.2.1
         | some _ => "-"
       pure s!"{showStatus r.2.2.2} {amount} {showInts r.1} {showList hex r.2.2.1}") rest
+  | "hist" :: rest => run (do
+      let tbl ← P.list pEntry; let objs ← P.list pObj; let ops ← P.list pHOp
+      let tr := hTrace (splitOf tbl) objs ops
+      pure (" || ".intercalate (tr.map (fun r => showHRes r.2 ++ " ; " ++ " | ".intercalate (r.1.map showObj))))) rest
   | "clamp" :: rest => run (do
       let a ← P.int; let lo ← P.int; let hi ← P.int; let mn ← P.int; let mx ← P.int
       pure s!"ok {Gen.clampTranspose a lo hi mn mx}") rest
